@@ -67,9 +67,11 @@ def cleanup_dump():
         shutil.rmtree(d, ignore_errors=True)
 
 
-def machine(idx, extra_contracts=(), loop_bound=64, timeout_s=None):
+def machine(idx, extra_contracts=(), loop_bound=64, timeout_s=None, rope='contract'):
+    """rope='contract': Rope behaves as the flat string (textmodel.py; discharged by the rope jobs);
+    rope='real': rope.rs itself is interpreted from its MIR"""
     from . import textmodel as _tm          # registers text contracts
-    tab = list(extra_contracts) + _contracts.table()
+    tab = list(extra_contracts) + [(p, f) for (p, f) in _contracts.table() if not (rope == 'real' and f.__name__.startswith('c_rope'))]
     m = Machine(idx, tab, loop_bound=loop_bound, timeout_s=timeout_s)
     m.overflow_checks = idx.flavour == 'mir'
     return m
@@ -79,7 +81,7 @@ def start(m, item_name, argv):
     it = m.items.get(item_name) or m.lookup(item_name, argv)
     if it is None: raise Inconclusive('item not found: ' + item_name)
     st = State()
-    m.push_frame(st, it, argv, None)
+    m.push_frame(st, it, argv, None, item_name)
     return st
 
 
@@ -94,5 +96,5 @@ def call(m, st, fname, argv, until=None):
     it = m.items.get(fname) or m.lookup(fname, argv)
     if it is None: raise Inconclusive('item not found: ' + fname)
     depth = len(st.frames)
-    m.push_frame(st, it, argv, None)
+    m.push_frame(st, it, argv, None, fname)
     return m.run(st, until_depth=depth)
